@@ -323,7 +323,17 @@ def map_lookup(ex, m, key):
         idxs.append(i)
     miss = z3.And(*[z3.Not(c) for c in conds]) if conds else z3.BoolVal(True)
     for b in ex.branches(conds + [miss]):
-        yield idxs[b] if b < len(idxs) else None
+        if b < len(idxs):
+            yield idxs[b]
+        elif m.meta.get("arbitrary"):
+            # unknown input map: this key (different from every key seen so far) may or may not be present
+            p = ex.fresh_bool("has_" + m.name)
+            n = len(m.entries)
+            tappend(m.entries, (key, p, Cell(ex.fresh_value(m.meta.get("val_ty", "()"), "%s.entry%d" % (m.name, n)))))
+            for bb in ex.branches([p, z3.Not(p)]):
+                yield n if bb == 0 else None
+        else:
+            yield None
 
 
 def key_eq(ex, a, b):
@@ -638,6 +648,15 @@ def install(ex):
         if not (is_z3(a) and z3.is_int(a)):
             raise NoModel()
         yield z3.If(a <= b, a, b) if strip_turbofish(callee).endswith("min") else z3.If(a >= b, a, b)
+
+    @model(r"^<T as PartialEq>::(eq|ne)$|^<[A-Z] as PartialEq>::(eq|ne)$", "equality on an uninstantiated type parameter: true for the same object, otherwise an arbitrary boolean (over-approximation)")
+    def generic_eq(ex, callee, args, rt):
+        a, b = ex.deref(args[0]), ex.deref(args[1])
+        if a is b:
+            r = z3.BoolVal(True)
+        else:
+            r = ex.fresh_bool("geq")
+        yield r if callee.endswith("eq") else z3.Not(r)
 
     @model(r"^<\(.*\) as PartialEq>::(eq|ne)$", "tuple equality, componentwise over scalars")
     def tuple_eq(ex, callee, args, rt):
@@ -995,6 +1014,37 @@ def install(ex):
             tset(s, "ln", n + 1)
             yield UNIT
 
+    @model(r"^(std::vec::)?Vec::(<.*>::)?(insert|remove)$|^(smallvec::)?SmallVec::(<.*>::)?(insert|remove)$", "Vec/SmallVec insert(i, x) / remove(i) with a concrete index")
+    def vec_insert(ex, callee, args, rt):
+        s = ex.deref(args[0])
+        idx = conc_int(args[1])
+        op = strip_turbofish(callee).rsplit("::", 1)[1]
+        if idx is None:
+            raise Unsupported("Vec::%s with a symbolic index" % op)
+        for n in seq_len_cases(ex, s):
+            if op == "insert":
+                if idx > n:
+                    ex.panic("insertion index out of bounds", callee)
+                    continue
+                if n >= s.max:
+                    raise Unsupported("insert beyond modelled capacity of " + repr(s))
+                vals = [ex.seq_item(s, j).v for j in range(n)]
+                vals.insert(idx, args[2])
+                for j, v in enumerate(vals):
+                    tset(s.items[j], "v", v)
+                tset(s, "ln", n + 1)
+                yield UNIT
+            else:
+                if idx >= n:
+                    ex.panic("removal index out of bounds", callee)
+                    continue
+                vals = [ex.seq_item(s, j).v for j in range(n)]
+                x = vals.pop(idx)
+                for j, v in enumerate(vals):
+                    tset(s.items[j], "v", v)
+                tset(s, "ln", n - 1)
+                yield x
+
     @model(r"^(std::vec::)?Vec::(<.*>::)?pop$|^(smallvec::)?SmallVec::(<.*>::)?pop$", "pop")
     def vec_pop(ex, callee, args, rt):
         s = ex.deref(args[0])
@@ -1317,6 +1367,10 @@ def install(ex):
         m = ex.deref(args[0])
         op = strip_turbofish(callee).rsplit("::", 1)[1]
         key = args[1]
+        if op in ("contains_key", "contains") and m.meta.get("arbitrary"):
+            for i in map_lookup(ex, m, key):
+                yield z3.BoolVal(i is not None)
+            return
         if op in ("contains_key", "contains"):
             # no fork needed: a boolean term
             key = ex.deref(key)
@@ -1350,6 +1404,46 @@ def install(ex):
             yield it
         else:
             raise Unsupported("HashMap::" + op)
+
+    @model(r"^(std::collections::)?(HashMap|HashSet)::(<.*>::)?is_empty$", "HashMap/HashSet::is_empty")
+    def hm_is_empty(ex, callee, args, rt):
+        m = ex.deref(args[0])
+        if m.meta.get("arbitrary"):
+            yield ex.fresh_bool("is_empty_" + m.name)
+            return
+        yield z3.Not(z3.Or(*[p for (k, p, c) in m.entries])) if m.entries else z3.BoolVal(True)
+
+    @model(r"^(std::collections::)?(HashMap|HashSet)::(<.*>::)?clear$", "HashMap/HashSet::clear")
+    def hm_clear(ex, callee, args, rt):
+        m = ex.deref(args[0])
+        for i, (k, p, c) in enumerate(list(m.entries)):
+            TRAIL.append((m.entries, None, i, m.entries[i]))
+            m.entries[i] = (k, z3.BoolVal(False), c)
+        if m.meta.get("arbitrary"):
+            tput(m.meta, "arbitrary", False)
+        yield UNIT
+
+    @model(r"^(std::collections::)?HashMap::(<.*>::)?entry$", "HashMap::entry")
+    def hm_entry(ex, callee, args, rt):
+        yield Adt("MapEntry", None, [ex.deref(args[0]), args[1]])
+
+    @model(r"Entry::<.*>::or_insert_with$|Entry::or_insert_with$|Entry::<.*>::or_insert$|Entry::or_insert$", "Entry::or_insert_with / or_insert")
+    def hm_or_insert(ex, callee, args, rt):
+        ent = args[0]
+        m, key = ent.fields
+        for i in map_lookup(ex, m, key):
+            if i is not None:
+                yield Ref(m.entries[i][2])
+            else:
+                if strip_turbofish(callee).endswith("or_insert_with"):
+                    vals = ex.call_closure(args[1], [])
+                else:
+                    vals = iter([args[1]])
+                for v in vals:
+                    for _ in map_insert(ex, m, key, v):
+                        for j in map_lookup(ex, m, key):
+                            if j is not None:
+                                yield Ref(m.entries[j][2])
 
     @model(r"^(std::collections::)?(HashMap|HashSet)::(<.*>::)?len$", "HashMap::len")
     def hm_len(ex, callee, args, rt):
